@@ -4,8 +4,14 @@ package specgen
 
 import (
 	gengotypes "github.com/octohelm/gengo/pkg/types"
-	"go/ast"
+	"bufio"
+	"bytes"
 	"encoding/json"
+	"go/ast"
+	"net/url"
+	"reflect"
+	"slices"
+	"sync"
 	"errors"
 	"fmt"
 	"go/token"
@@ -25,6 +31,29 @@ import (
 	"verif/internal/fixture"
 	"verif/internal/pipeline"
 )
+
+// Shared snippet values, built once per process and rendered for every package (generators keep such snippets in
+// package-level variables): whatever a snippet value remembers from an earlier rendering - a resolved name, a
+// registered import - must not leak into the next file.
+var (
+	sharedExpose    = snippet.PkgExpose("fmt", "Sprintf")
+	sharedExposeOf  = snippet.PkgExposeOf(bytes.Buffer{})
+	sharedExposeFor = snippet.PkgExposeFor[bufio.Reader]("NewReader")
+	sharedID        = snippet.ID("net/url.URL")
+	sharedIDType    = snippet.ID(reflect.TypeFor[map[string]*time.Location]())
+	sharedValue     = snippet.Value(url.URL{Host: "h"})
+	sharedT         = snippet.T("// shared snippet values\nvar (\n\t_ = @a\n\t_ @b\n\t_ = @c\n\t_ @d\n\t_ @e\n\t_ = @f\n)\n\n",
+		snippet.Arg("a", sharedExpose), snippet.Arg("b", sharedExposeOf), snippet.Arg("c", sharedExposeFor),
+		snippet.Arg("d", sharedID), snippet.Arg("e", sharedIDType), snippet.Arg("f", sharedValue))
+	sharedSprintf = snippet.Sprintf("var _ %T = %v\n\n", reflect.TypeFor[[]*sync.Mutex](), []*sync.Mutex(nil))
+)
+
+// renderShared renders the process-wide snippet VALUES into the current package's file.
+func renderShared(c gengo.Context) {
+	c.Render(sharedT)
+	c.Render(sharedSprintf)
+	c.Render(snippet.Snippets(slices.Values([]snippet.Snippet{snippet.Block("var _ = "), sharedExpose, snippet.Block("\n\n")})))
+}
 
 // Behav is what one generator does in one package.
 type Behav struct {
@@ -150,6 +179,7 @@ func Build(specs []GenSpec) []gengo.Generator {
 				if !inst.Helper {
 					inst.Helper = true
 					c.RenderT("// helper of @g, once per instance\nfunc helper@gid() int { return @n }\n\n", snippet.Arg("g", snippet.Block(gs.Name)), snippet.Arg("gid", snippet.Block(sanitize(gs.Name))), snippet.Arg("n", snippet.Block(fmt.Sprint(len(inst.Seen)))))
+					renderShared(c)
 				}
 				if inst.Seen[name] {
 					c.RenderT("// @g: @n already seen by this instance\n", snippet.Arg("g", snippet.Block(gs.Name)), snippet.Arg("n", snippet.Block(name)))
@@ -277,6 +307,7 @@ func Build(specs []GenSpec) []gengo.Generator {
 					if !inst.Helper {
 						inst.Helper = true
 						c.RenderT("// helper of @g, once per instance (first reached through an alias)\nfunc helper@gid() int { return @n }\n\n", snippet.Arg("g", snippet.Block(gs.Name)), snippet.Arg("gid", snippet.Block(sanitize(gs.Name))), snippet.Arg("n", snippet.Block(fmt.Sprint(len(inst.Seen)))))
+						renderShared(c)
 					}
 					if inst.Seen[name] {
 						c.RenderT("// @g: @n already seen by this instance\n", snippet.Arg("g", snippet.Block(gs.Name)), snippet.Arg("n", snippet.Block(name)))
